@@ -94,10 +94,16 @@ def header_case(ctx, rng):
     st = tuple([("iri", "http://e/s"), ("iri", "http://e/p"), ("bnode", "b")] + ([("default",)] if arity == 4 else []))
     if preset[1] == 0:
         pass
+    stmts_in = [st]
+    if rng.random() < .2:
+        # a stream that carries no statement at all (an empty Graph / Dataset / sink): its options still have to reach the reader
+        stmts_in = []
+        cfg["entry"] = "stream_frames_sink" if integ == "generic" else rng.choice(["stream_frames_store", "graph_serialize"])
+        ctx.observe("headers-of-streams-without-statements")
     try:
         if ns:
             cfg["entry"] = "stream_frames_sink" if integ == "generic" else "stream_frames_store"
-        data = pj.serialize(cfg, [st], [("ex", "http://e/")] if ns else [])
+        data = pj.serialize(cfg, stmts_in, [("ex", "http://e/")] if ns else [])
     except Exception as e:  # noqa: BLE001
         if max(preset) > 4096:
             ctx.observe("writer-refused-table-over-4096")
